@@ -83,6 +83,11 @@ func (p *Parser) ParseFunctionParameters() []*ast.Identifier {
 
 func (p *Parser) ParseReturnStatement() *ast.ReturnStatement {
 	stmt := &ast.ReturnStatement{Token: p.CurrentToken}
+	// Restricted production: a line break after `return` ends the statement,
+	// whatever follows belongs to the next one
+	if p.PeekToken.AfterNewline {
+		return stmt
+	}
 	if p.PeekToken.Type != token.SEMICOLON && p.PeekToken.Type != token.EOF && p.PeekToken.Type != token.RBRACE {
 		p.NextToken()
 		stmt.ReturnValue = p.ParseExpression()
